@@ -27,6 +27,41 @@ var c09FollowUps = []string{
 	"a", "a + 1", "b * 2", "s", "s + 'x'", "n ?? 5", "xs", "xs[0]", "xs[-1]", "xs.len()", "xs.sum()", "xs.push(9); xs", "xs.pop()", "ys", "dd", "dd.k", "dd['j']", "dd.keys()", "dd.len()", "dd.new = 3; dd",
 	"nest", "nest[1].a", "nest[0][1][1]", "big", "big + 0", "fl", "sm + z", "f(1)", "g()", "h(1, 2)", "r2()", "dflt()", "fib(6)", "cv", "cd", "cdef", "ca", "&ca.base", "&ca.base = 20; ca", "cn", "cf", "ce",
 	"t", "u", "w", "arr2", "mix", "mix[0](3)", "fd.fn(4)", "fd.cv", "e1", "ce()", "cx", "uni", "empty", "toStr(dd)", "toStr(nest)", "repr(s)", "typeId(f)", "typeId(&cv)", "&cv", "lng.sum()", "dup", "a = a + 1; a", "xs == xs", "dd == dd", "xs[0:2]", "s[1:3]", "`{xs}{dd}{cv}`", "f", "&cd", "cv.compute()", "dir(xs)",
+	"hk", "hk.keys()", "hs", "hn", "toStr(hk)", "&hc.at", "hf()", "ht", "hs + hs", "hk == hk",
+}
+
+// c09HostileStr is a string literal body (no quote, backslash or brace) drawn from characters that
+// JSON, Go and JavaScript escape differently: C0 controls, DEL, C1, line separators, BOM, astral
+// non-printables, the replacement character, markup characters.
+func c09HostileStr(r *fw.Rand) string {
+	alpha := []rune{0x01, 0x07, 0x0b, 0x1f, 0x7f, 0x08, 0x0c, 0x0a, 0x09, 0x80, 0x9f, '<', '>', '&', '/', 0x2028, 0x2029, 0xfeff, 0xfffd, 0xe0001, 0x10ffff, 0x1f3b2, '"', 'a', 'k', '中', ' ', 0xad, 0x200b, 0xd7ff, 0xe000}
+	n := r.Range(1, 4)
+	var sb strings.Builder
+	for i := 0; i < n; i++ {
+		sb.WriteRune(alpha[r.Intn(len(alpha))])
+	}
+	return sb.String()
+}
+
+// c09HostileBuilder builds a variable whose keys / string leaves are hostile strings.
+func c09HostileBuilder(r *fw.Rand) string {
+	s1, s2 := c09HostileStr(r), c09HostileStr(r)
+	switch r.Intn(7) {
+	case 0:
+		return "hk = {'" + s1 + "': 1, '" + s2 + "': [1.5]}"
+	case 1:
+		return "hs = '" + s1 + "'"
+	case 2:
+		return "dd = {}; dd['" + s1 + "'] = '" + s2 + "'"
+	case 3:
+		return "hn = [{'" + s1 + "': {'" + s2 + "': null}}]"
+	case 4:
+		return "hv = '" + s1 + "'; hk = {hv: [hv]}"
+	case 5:
+		return "&hc = 1; &hc.at = {'" + s1 + "': '" + s2 + "'}"
+	default:
+		return "func hf() { '" + s1 + "' }; ht = `" + s2 + "{1}`"
+	}
 }
 
 func c09N(tier string) int {
@@ -123,7 +158,11 @@ func c09Case(w *fw.W, idx int, r *fw.Rand) {
 			g := ref.NewGen(r)
 			stmts = append(stmts, ref.Print(r, false, g.Stmts(1, 2)))
 		} else {
-			stmts = append(stmts, r.Pick(c09Builders))
+			if r.P(1, 8) {
+				stmts = append(stmts, c09HostileBuilder(r))
+			} else {
+				stmts = append(stmts, r.Pick(c09Builders))
+			}
 		}
 	}
 	cut := r.Range(1, k) // snapshot after this many statements (save/restart point)
